@@ -45,7 +45,7 @@ class Check:
         'the reference model is the library\'s own batch constructor run solo on a private copy of the history: equivalence, determinism and isolation are decided, absolute correctness is not',
         'interleaving granularity is one public call (the API is synchronous; no pre-emption inside a call)',
         'the calendar is frozen inside a run (filters built without a magnetic reference read the WMM for "today")',
-        'Madgwick is given its gain explicitly on both paths (the data-less constructor cannot know which default applies)',
+        'Madgwick is given its gain explicitly on both paths in 90 % of its runs; the remaining runs leave the default to the class, which is where the open known finding C06-madgwick-default-gain lives',
         'equality tolerance 1e-12 absolute per component for stream vs batch (AngularRate batch renormalises through QuaternionArray); bit equality for solo re-execution and repetition',
     ]
     components = {
@@ -201,7 +201,10 @@ class Check:
         return x
 
     def _v(self, t, symptom, step, detail):
-        return {'component': t.kind.name, 'symptom': symptom, 'trigger': 'any', 'step': step, 'detail': detail,
+        trigger = 'any'
+        if t.kind.name.startswith('madgwick') and 'gain' not in t.spec.get('params', {}):
+            trigger = 'default-gain'
+        return {'component': t.kind.name, 'symptom': symptom, 'trigger': trigger, 'step': step, 'detail': detail,
                 'task': t.idx}
 
     @staticmethod
